@@ -76,6 +76,7 @@ let instr_of (tok : string) : c10_instr =
   | _ -> failwith "instr"
 let ev_str l = String.concat "" (List.map (function C10_EvBool b -> if b then "1" else "0" | C10_EvMathError -> "M" | C10_EvException -> "X"
                                                    | C10_EvOutOfFuel -> "F" | C10_EvOutOfBounds -> "O") l)
+let ascii_of_char c = let k = Char.code c in let b i = (k lsr i) land 1 = 1 in Ascii (b 0, b 1, b 2, b 3, b 4, b 5, b 6, b 7)
 let string_of_chars l = String.concat "" (List.map (fun c -> String.make 1 (char_of_ascii c)) l)
 let b01 b = if b then "1" else "0"
 let canon_me (m, e) = (* canonical m*2^e with m odd (or 0 0) *)
@@ -190,6 +191,30 @@ let () =
           (* showbase set on the stream: print's digits are unaffected (model of the code after fix C10-6), the flag is still set afterwards *)
           let (o1, _) = c10_stream_insert ([], C10_dec) (a ()) in
           string_of_chars o1 ^ "|255|0xff", pad_hex n (hex_of_n (va ())) ^ "|255|0xff"
+      | "printst" | "streamst" ->
+          (* k printst|streamst <big> <adj><base><sb><uc><sp><grp> <width> <fill hex>: print / operator<< on a stream in the given
+             formatting state.  Fields: model (code after fix C10-7) | spec (from the VALUE) | model of the code as written *)
+          let f = t.(3) in
+          let bit i = f.[i] = '1' in
+          let st = { c10_s_base = (match f.[1] with 'h' -> C10_hex | 'o' -> C10_oct | _ -> C10_dec); c10_s_showbase = bit 2; c10_s_uppercase = bit 3;
+                     c10_s_showpos = bit 4;
+                     c10_s_adjust = (match f.[0] with 'l' -> C10_adj_left | 'r' -> C10_adj_right | 'i' -> C10_adj_internal | _ -> C10_adj_other);
+                     c10_s_fill = ascii_of_char (Char.chr (int_of_string ("0x" ^ t.(5)))); c10_s_width = n_of_int (int_of_string t.(4));
+                     c10_s_group = n_of_int (Char.code f.[5] - 48); c10_s_sep = ascii_of_char ',' } in
+          let show (o, s) =
+            Printf.sprintf "[%s] w=%d fill=%02x adj=%s base=%s sb=%s uc=%s sp=%s" (string_of_chars o) (int_of_n s.c10_s_width)
+              (Char.code (char_of_ascii s.c10_s_fill))
+              (match s.c10_s_adjust with C10_adj_left -> "l" | C10_adj_right -> "r" | C10_adj_internal -> "i" | C10_adj_other -> String.make 1 f.[0])
+              (match s.c10_s_base with C10_dec -> "d" | C10_hex -> "h" | C10_oct -> "o") (b01 s.c10_s_showbase) (b01 s.c10_s_uppercase) (b01 s.c10_s_showpos) in
+          (* the spec, from the value: 4n hex digits (letters in the requested case) in a field of the pending width *)
+          let body = pad_hex n (hex_of_n (va ())) in
+          let body = if bit 3 then String.uppercase_ascii body else body in
+          let w = int_of_string t.(4) in
+          let padding = String.make (max 0 (w - String.length body)) (Char.chr (int_of_string ("0x" ^ t.(5)))) in
+          let text = if f.[0] = 'l' then body ^ padding else padding ^ body in
+          show (c10_print_ios st (a ())),
+          Printf.sprintf "[%s] w=0 fill=%s adj=%c base=d sb=%c uc=%c sp=%c" text (String.lowercase_ascii t.(5)) f.[0] f.[2] f.[3] f.[4]
+          ^ " | " ^ show (c10_print_ios_written st (a ()))
       | "touint" -> string_of_int (int_of_n (c10_touint (a ()))), string_of_int (int_of_n (N.modulo (va ()) (N.pow (n_of_int 2) (n_of_int 32))))
       | "todouble" ->
           let (m, e) = c10_todouble (a ()) in
